@@ -84,6 +84,20 @@ pub fn worker(check: &dyn Check, tier: Tier, shard: usize, nshards: usize, resum
     let n = check.n_items(tier);
     let out = std::io::stdout();
     let jf = journal.map(JournalFile);
+    // a worker whose driver has gone (killed, timed out) must not keep computing: watch the
+    // parent pid and leave as soon as it changes; a failed write to the result pipe ends it too
+    fn ppid() -> Option<String> {
+        let st = std::fs::read_to_string("/proc/self/status").ok()?;
+        st.lines().find(|l| l.starts_with("PPid:")).map(|l| l.to_string())
+    }
+    if let Some(p0) = ppid() {
+        std::thread::spawn(move || loop {
+            std::thread::sleep(std::time::Duration::from_secs(2));
+            if ppid().map(|p| p != p0).unwrap_or(false) {
+                std::process::exit(3);
+            }
+        });
+    }
     let idxs: Vec<usize> = match only {
         Some(i) => vec![i],
         None => (0..n)
@@ -94,8 +108,9 @@ pub fn worker(check: &dyn Check, tier: Tier, shard: usize, nshards: usize, resum
     for idx in idxs {
         {
             let mut o = out.lock();
-            let _ = writeln!(o, "B {}", idx);
-            let _ = o.flush();
+            if writeln!(o, "B {}", idx).is_err() || o.flush().is_err() {
+                return 3;
+            }
         }
         let t_item = Instant::now();
         match check.run_item(tier, idx, jf.as_ref()) {
